@@ -10,7 +10,7 @@ def scratch_dir(tag='vp'):
     return tempfile.mkdtemp(prefix='%s_%d_' % (tag, os.getpid()), dir=base)
 
 
-def run_verus(mirror_path, modules=None, rlimit=None, threads=16, extra=None, timeout=1800, multiple_errors=12):
+def run_verus(mirror_path, modules=None, rlimit=None, threads=16, extra=None, timeout=1800, multiple_errors=6):
     cmd = [VERUS, os.path.basename(mirror_path), '--output-json', '--time-expanded', '--error-format=json',
            '--multiple-errors', str(multiple_errors), '--num-threads', str(threads)]
     if rlimit:
